@@ -41,9 +41,16 @@ import (
 )
 
 const (
-	longWait  = 5 * time.Second      // something must happen: waiting this long means it never will
+	longWait  = 3 * time.Second      // something must happen: waiting this long means it never will
 	shortWait = 4 * time.Millisecond // nothing may happen: we only confirm that briefly
 )
+
+// After an oracle violation the run is already decided; waiting the full longWait for every further op of a broken
+// implementation would only make the check slow.  The first few violating cases keep the long waits (so their
+// replies stay meaningful for shrinking), then everything falls back to a short "broken" wait.
+const brokenWait = 60 * time.Millisecond
+
+var violatingCases int
 
 type engine struct{}
 
@@ -157,39 +164,40 @@ func (engine) Generate(rng *rand.Rand, tier string) []core.Case {
 	caps := []int{0, 1, 2, 7}
 	var cases []core.Case
 	nScripts, nStress, stressN := 200, 6, 300
+	enumLen := 4 // exhaustive small scope: every action sequence of this length over {send, recv, xfer, stop}
 	if tier == "thorough" {
 		nScripts, nStress, stressN = 1200, 60, 3000
-		// exhaustive small scope: every action sequence of length 5 over {send, recv, xfer, stop} (at most one stop,
-		// no xfer after it) for cap 0, 1, 2 — prefixes cover the shorter ones
-		alpha := []string{"send", "recv", "xfer", "stop"}
-		for _, cap := range []int{0, 1, 2} {
-			var rec func(prefix []string, stopped bool)
-			rec = func(prefix []string, stopped bool) {
-				if len(prefix) == 5 {
-					ops := []string{fmt.Sprintf("new cap=%d", cap)}
-					v := 0
-					for _, a := range prefix {
-						switch a {
-						case "send", "xfer":
-							ops = append(ops, fmt.Sprintf("%s %d", a, v))
-							v++
-						default:
-							ops = append(ops, a)
-						}
+		enumLen = 5
+	}
+	// (at most one stop, no xfer after it) for cap 0, 1, 2 — prefixes cover the shorter sequences
+	alpha := []string{"send", "recv", "xfer", "stop"}
+	for _, cap := range []int{0, 1, 2} {
+		var rec func(prefix []string, stopped bool)
+		rec = func(prefix []string, stopped bool) {
+			if len(prefix) == enumLen {
+				ops := []string{fmt.Sprintf("new cap=%d", cap)}
+				v := 0
+				for _, a := range prefix {
+					switch a {
+					case "send", "xfer":
+						ops = append(ops, fmt.Sprintf("%s %d", a, v))
+						v++
+					default:
+						ops = append(ops, a)
 					}
-					ops = append(ops, "len")
-					cases = append(cases, core.Case{Ops: ops, Tags: []string{"exhaustive-len5", fmt.Sprintf("cap=%d", cap)}})
-					return
 				}
-				for _, a := range alpha {
-					if stopped && (a == "stop" || a == "xfer") {
-						continue
-					}
-					rec(append(append([]string{}, prefix...), a), stopped || a == "stop")
-				}
+				ops = append(ops, "len")
+				cases = append(cases, core.Case{Ops: ops, Tags: []string{fmt.Sprintf("exhaustive-len%d", enumLen), fmt.Sprintf("cap=%d", cap)}})
+				return
 			}
-			rec(nil, false)
+			for _, a := range alpha {
+				if stopped && (a == "stop" || a == "xfer") {
+					continue
+				}
+				rec(append(append([]string{}, prefix...), a), stopped || a == "stop")
+			}
 		}
+		rec(nil, false)
 	}
 	// a few fixed scripts that pin the hand-over between chanOut and the overflow list
 	for _, cap := range caps {
@@ -215,6 +223,13 @@ func (engine) Generate(rng *rand.Rand, tier string) []core.Case {
 			cases = append(cases, stressCase(rng, cap, 1+rng.Intn(stressN), i%3 == 2))
 		}
 	}
+	// one burst far beyond any plausible bound on the overflow list, with a consumer that does nothing meanwhile
+	// ("however slow the consumer is ... all burst lengths exceeding the buffer")
+	for _, cap := range []int{0, 2} {
+		cases = append(cases, core.Case{
+			Ops:  []string{fmt.Sprintf("stress cap=%d n=%d seed=%d stop=-1 prod=burst cons=idle", cap, 12000+rng.Intn(1000), rng.Intn(1<<30))},
+			Tags: []string{"stress", "stress-long-burst-idle-consumer", fmt.Sprintf("cap=%d", cap)}})
+	}
 	// a malformed stream: the model driver must answer bad-op exactly like the harness
 	cases = append(cases, core.Case{Ops: []string{"new cap=1", "send x", "frob", "recv 3", "send", "send -1", "stress cap=1", "new cap=x", "new cap=-1", "send 5", "recv"},
 		Tags: []string{"malformed"}})
@@ -236,6 +251,7 @@ type runner struct {
 	stopped  bool
 	viol     []string
 	seenRecv map[int]bool
+	broken   bool // an oracle violation was already reported for this case
 }
 
 func (engine) NewRunner() core.Runner {
@@ -251,6 +267,7 @@ func waitExit(d time.Duration) bool {
 			return true
 		}
 		if time.Now().After(deadline) {
+			baseG = runtime.NumGoroutine() // a leaked worker stays; judge later cases on their own
 			return false
 		}
 		if i < 200 {
@@ -265,13 +282,25 @@ func (r *runner) Close() {
 	if r.q != nil && !r.stopped {
 		r.q.Stop()
 		r.stopped = true
-		waitExit(longWait)
+		waitExit(r.long())
 	}
 	r.q = nil
 }
 
 func (r *runner) v(key, format string, a ...interface{}) {
 	r.viol = append(r.viol, "C18 key="+key+": "+fmt.Sprintf(format, a...))
+	if !r.broken {
+		r.broken = true
+		violatingCases++
+	}
+}
+
+// long is the time to wait for something that must happen.
+func (r *runner) long() time.Duration {
+	if r.broken || violatingCases > 8 {
+		return brokenWait
+	}
+	return longWait
 }
 
 func (r *runner) pending() int { return len(r.sent) - len(r.recvd) }
@@ -286,7 +315,7 @@ func (r *runner) quiesce() int {
 	if want > r.cap {
 		want = r.cap
 	}
-	deadline := time.Now().Add(longWait)
+	deadline := time.Now().Add(r.long())
 	for i := 0; ; i++ {
 		l := len(out)
 		if l == want {
@@ -309,7 +338,7 @@ func (r *runner) quiesce() int {
 }
 
 func (r *runner) send(val int) bool {
-	d := longWait
+	d := r.long()
 	if r.stopped {
 		d = shortWait
 	}
@@ -345,11 +374,12 @@ func (r *runner) received(val int) {
 	r.seenRecv[val] = true
 }
 
-func (r *runner) recvWait() time.Duration {
+// recvWait: how long a receive waits, and whether a value must arrive.
+func (r *runner) recvWait() (time.Duration, bool) {
 	if len(r.q.ChanOut()) > 0 || (!r.stopped && r.pending() > 0) {
-		return longWait
+		return r.long(), true
 	}
-	return shortWait
+	return shortWait, false
 }
 
 func (r *runner) flush() string {
@@ -402,8 +432,7 @@ func (r *runner) Exec(op string) (string, string) {
 		}
 		return fmt.Sprintf("blocked len=%d", l), r.flush()
 	case f[0] == "recv" && len(f) == 1:
-		d := r.recvWait()
-		expect := d == longWait
+		d, expect := r.recvWait()
 		t := time.NewTimer(d)
 		defer t.Stop()
 		select {
@@ -422,7 +451,7 @@ func (r *runner) Exec(op string) (string, string) {
 			return "bad-op", ""
 		}
 		// after Stop nothing can arrive beyond the buffer; before Stop the consumer gets the oldest pending value or val
-		d := longWait
+		d := r.long()
 		if r.stopped && len(r.q.ChanOut()) == 0 {
 			d = shortWait
 		}
@@ -460,10 +489,11 @@ func (r *runner) Exec(op string) (string, string) {
 		}
 		r.q.Stop()
 		r.stopped = true
-		if waitExit(longWait) {
+		if d := r.long(); waitExit(d) {
 			return "stopped exited=1", ""
+		} else {
+			r.v("stop-not-terminating", "worker goroutine still alive %v after Stop() (no producer, no consumer active)", d)
 		}
-		r.v("stop-not-terminating", "worker goroutine still alive %v after Stop() (no producer, no consumer active)", longWait)
 		return "stopped exited=0", r.flush()
 	case f[0] == "len" && len(f) == 1:
 		return fmt.Sprintf("len n=%d cap=%d", len(r.q.ChanOut()), cap(r.q.ChanOut())), ""
@@ -473,7 +503,15 @@ func (r *runner) Exec(op string) (string, string) {
 
 // ------------------------------------------------------------------ free-running stress
 
+func longG() time.Duration {
+	if violatingCases > 8 {
+		return brokenWait
+	}
+	return longWait
+}
+
 func stress(capN, n int, seed int64, stopAt int, prod, cons string) (string, string) {
+	longWait := longG()
 	q := chain.NewConcurrentQueue(capN)
 	q.Start()
 	var (
@@ -601,6 +639,7 @@ func stress(capN, n int, seed int64, stopAt int, prod, cons string) (string, str
 		addV("lost", "stress: %d of %d values received (cap %d prod %s cons %s)", len(received), n, capN, prod, cons)
 	}
 	if len(viol) > 0 {
+		violatingCases++
 		return "bad " + strconv.Itoa(len(viol)), strings.Join(viol, "; ")
 	}
 	if stopAt < 0 {
